@@ -99,6 +99,13 @@ class ParametricTransform:
         r"""Whether this transformation has optimizable parameters."""
         return isinstance(self.params, Parameter)
 
+    def _unregister_params(self: Union[TSpatialTransform, ParametricTransform]) -> None:
+        r"""Remove ``params`` from module containers such that it can be set to a value of a different kind."""
+        for name in ("_parameters", "_buffers", "_modules"):
+            self.__dict__[name].pop("params", None)
+        self._non_persistent_buffers_set.discard("params")
+        self.__dict__.pop("params", None)
+
     @torch.no_grad()
     def reset_parameters(self: Union[TSpatialTransform, ParametricTransform]) -> None:
         r"""Reset transformation parameters."""
@@ -149,6 +156,7 @@ class ParametricTransform:
         copy = shallow_copy(self)
         if callable(params):
             delattr(copy, "p")
+            copy._unregister_params()
         if isinstance(params, Parameter) and not isinstance(arg, Parameter):
             copy.params = Parameter(arg, params.requires_grad)
         else:
@@ -262,6 +270,7 @@ class ParametricTransform:
             raise TypeError(
                 f"{type(self).__name__}.link() 'other' must be of the same type, got {type(other).__name__}"
             )
+        self._unregister_params()
         self.params = other
         if not hasattr(self, "p"):
             if other.params is None:
@@ -279,6 +288,7 @@ class ParametricTransform:
 
     def unlink_(self: Union[TSpatialTransform, ParametricTransform]) -> TSpatialTransform:
         r"""Resets transformation parameters to ``None``."""
+        self._unregister_params()
         self.params = None
         if hasattr(self, "p"):
             delattr(self, "p")
